@@ -428,6 +428,8 @@ fn edit_name(e: &Edit) -> &'static str {
         Edit::Fault(_) => "fault",
         Edit::Inner { .. } => "inner",
         Edit::Multi(_) => "multi",
+        Edit::Merge { .. } => "merge",
+        Edit::Split { .. } => "split",
     }
 }
 
@@ -957,18 +959,96 @@ pub fn pick_backend(rng: &mut Rng, prop: &str) -> Backend {
 }
 
 /// C07 scenario: generated voices, edit script with fault edits.
+/// C07 on a "layout revisit" history (see `ProgGen::revisit_script`): every save is applied (one
+/// sample or more apart), every site has a channel of its own.
+pub fn gen_c07_revisit(seed: u64) -> Scenario {
+    use crate::voices::Kind;
+    let root = Rng::new(seed);
+    let mut r = root.sub("revisit");
+    let kinds = if r.chance(1, 2) { vec![Kind::Counter, Kind::Lag2, Kind::Mfb, Kind::CntMem] } else { crate::voices::SUB_KINDS.to_vec() };
+    let n_sites = r.range(2, 3) as usize;
+    let cfg = GenCfg { max_sites: n_sites, n_chan: n_sites + 1, n_in: 0, max_delay: 16, kinds, mix_channels: false, regroup: false };
+    let mut pg = ProgGen::new(cfg);
+    // two or three sites of pairwise different kinds, unwrapped, without dsp inputs
+    let mut v0 = pg.initial(&mut r);
+    let mut guard = 0;
+    while guard < 200
+        && (v0.sites.len() != n_sites
+            || v0.sites.iter().any(|s| s.wrap != 0)
+            || (0..v0.sites.len()).any(|i| (0..i).any(|j| v0.sites[i].kind == v0.sites[j].kind)))
+    {
+        v0 = pg.initial(&mut r);
+        guard += 1;
+    }
+    if guard >= 200 {
+        return gen_c07(seed ^ 0x5bd1_e995);
+    }
+    for (c, s) in v0.sites.iter().enumerate() {
+        v0.chans[c] = vec![s.id];
+    }
+    for c in v0.sites.len()..v0.chans.len() {
+        v0.chans[c].clear();
+    }
+    let mut versions = vec![Version::Gen(v0.clone())];
+    for p in pg.revisit_script(&mut r, &v0) {
+        versions.push(Version::Gen(p));
+    }
+    let gap = r.range(1, 9);
+    let first = r.range(1, 12);
+    let saves: Vec<Save> = (1..versions.len()).map(|v| Save { at: first + gap * (v as u64 - 1), version: v, latency: 0 }).collect();
+    let total = first + gap * versions.len() as u64 + r.range(8, 40);
+    Scenario {
+        prop: "C07".into(),
+        seed,
+        // (not the skeleton-less WASM paths: every layout-changing swap there is the known finding)
+        backend: *r.pick(&[Backend::Vm, Backend::Vm, Backend::VmCli, Backend::WasmP3, Backend::WasmP4]),
+        versions,
+        saves,
+        blocks: vec![1],
+        total,
+        input_seed: r.next_u64(),
+        retire: RetireMode::Present,
+        with_scheduler: r.chance(1, 2),
+        sample_rate: 48000,
+        self_init_0: false,
+        with_sampler: false,
+    }
+}
+
 pub fn gen_c07(seed: u64) -> Scenario {
     let root = Rng::new(seed);
+    if root.sub("which-revisit").chance(1, 25) {
+        return gen_c07_revisit(seed);
+    }
     let mut r_cfg = root.sub("swarm");
     let mut r_prog = root.sub("workload");
     let mut r_sched = root.sub("schedule");
     let mut r_fault = root.sub("faults");
-    let cfg = GenCfg::swarm(&mut r_cfg);
+    let mut cfg = GenCfg::swarm(&mut r_cfg);
     let backend = pick_backend(&mut r_cfg, "C07");
     let faults_enabled = r_cfg.chance(2, 3);
+    let mut n_edits = r_cfg.range(1, 6) as usize;
+    // one history in ten is a regrouping session: small programs of voices that can live inside a
+    // composite, and mostly merge / split / wrap / unwrap edits, so that the same flattened layout
+    // is met again and again under other nestings
+    let mut r_rg = root.sub("regroup-family");
+    if r_rg.chance(1, 10) {
+        cfg.regroup = true;
+        // (half of these sessions draw from four small kinds only, two or three sites: few distinct
+        // layouts, so the same layout also comes back in other histories of the worker process)
+        if r_rg.chance(1, 2) {
+            use crate::voices::Kind;
+            cfg.kinds = vec![Kind::Counter, Kind::Lag2, Kind::Mfb, Kind::CntMem];
+            cfg.max_sites = r_rg.range(2, 3) as usize;
+            cfg.n_in = 0;
+        } else {
+            cfg.kinds = crate::voices::SUB_KINDS.to_vec();
+            cfg.max_sites = r_rg.range(2, 4) as usize;
+        }
+        n_edits = r_rg.range(3, 7) as usize;
+    }
     let mut pg = ProgGen::new(cfg);
     let v0 = pg.initial(&mut r_prog);
-    let n_edits = r_cfg.range(1, 6) as usize;
     let mut versions = vec![Version::Gen(v0.clone())];
     let mut good = v0;
     let mut n_faults = 0;
@@ -1198,6 +1278,8 @@ fn remove_site(sc: &Scenario, id: u32) -> Scenario {
                 Edit::Replace { old_id, new_id, .. }
                 | Edit::Wrap { old_id, new_id, .. }
                 | Edit::Unwrap { old_id, new_id, .. } => *old_id == id || *new_id == id,
+                Edit::Merge { a_id, b_id, new_id, .. } => *a_id == id || *b_id == id || *new_id == id,
+                Edit::Split { old_id, a_id, b_id, .. } => *old_id == id || *a_id == id || *b_id == id,
                 // a reorder whose exchanged site is removed stays a reorder (nothing inside the
                 // former interval may be judged; see VoiceOracle::swap)
                 _ => false,
